@@ -191,9 +191,11 @@ def gen(rng, tier, index):
                                    0.33, 1.0, 2.5, 61.0])}
     if timing['mode'] == 'delay':
         timing['d'] = min(timing['d'], 250 * tick)
-    if shape == 'infinite' and timing['mode'] == 'delay' and \
-            text.startswith('time 0\n'):
-        timing['d'] = min(timing['d'], 0.02)    # busy loop: keep it short
+    if shape == 'infinite' and timing['mode'] == 'delay':
+        timing['d'] = min(timing['d'], 1.0)
+        if text.startswith('time 0\n') or ' set ' not in text and \
+                ' on ' not in text and ' off ' not in text:
+            timing['d'] = min(timing['d'], 0.02)   # busy loop: keep it short
     rerun = rng.choice([None, 'same', 'other'])
     pol = policy.draw_policy(rng, est_len=600, stalls=True)
     if timing['mode'] == 'target' and pol['gran'] == 'opcode':
@@ -388,6 +390,9 @@ def execute(scenario, chooser):
                 st['stop_exc'] = '{}: {}'.format(type(ex).__name__, ex)
             sim.stall_enabled = False
             sim.forced = None
+            # liveness is judged under a fair scheduler: from here on no
+            # runnable thread is passed over more than a few times
+            sim.fairness = 4
             st['S'] = sim.next_event()
             st['t_S'] = sim.now
             st['queue_at_S'] = [a.name for a in jc.get_queued()]
